@@ -12,6 +12,15 @@ truncated input, hence the same two octets are seen).
 namespace Vflow.Ipfix
 open Vflow
 
+/-- an error that makes the IPFIX `Decode` return `(nil, err)`: one that is not wrapped in `nonfatalError`
+(`nonfatalErr`; since the F30 repair `emptyRec` is no longer among them, so this is not the `Fatal` that the
+NetFlow v9 proofs use) -/
+def FatalI (e : Option Err) : Prop := ∃ x, e = some x ∧ nonfatalErr x = false
+
+theorem fatalI_short : FatalI (some .short) := ⟨_, rfl, rfl⟩
+theorem fatalI_fuel : FatalI (some .fuel) := ⟨_, rfl, rfl⟩
+theorem fatalI_badSetLen : FatalI (some .badSetLen) := ⟨_, rfl, rfl⟩
+
 theorem readSpec_mono : Mono readSpec := by
   intro s t f h res t' hg
   simp only [readSpec] at hg
@@ -324,14 +333,14 @@ theorem setLoop_sim (s : Bytes) (ctx : Ctx) : ∀ (fuelT fuelF : Nat) (stT stF :
               obtain ⟨res, r'⟩ := pr
               rcases decodeData_mono ctx.tr s stT.r stF.r hr res r' hp with hs | ⟨f', hf', hr'⟩
               · subst hs
-                simp only [Err.nonfatal, Bool.false_eq_true, if_false, Prod.mk.injEq] at h
+                simp only [show nonfatalErr Err.short = false from rfl, Bool.false_eq_true, if_false, Prod.mk.injEq] at h
                 left; exact h.2.1.symm
               · rw [hf']
                 cases res with
                 | error e =>
                   simp only at h ⊢
                   right; right; left
-                  by_cases hn : e.nonfatal = true
+                  by_cases hn : nonfatalErr e = true
                   · rw [if_pos hn] at h ⊢
                     simp only [Prod.mk.injEq] at h ⊢
                     refine ⟨_, ⟨rfl, h.2⟩, ?_⟩
@@ -375,7 +384,7 @@ theorem setLoop_sim (s : Bytes) (ctx : Ctx) : ∀ (fuelT fuelF : Nat) (stT stF :
 
 theorem skipRest_sim (s : Bytes) (ctx : Ctx) (e1 : Option Err) (a b : St) (hrel : SRel s a b) :
     ∀ a' e, skipRest ctx a e1 = (a', e) →
-      Fatal e ∨ ∃ b', skipRest ctx b e1 = (b', e) ∧ SRel s a' b' := by
+      FatalI e ∨ ∃ b', skipRest ctx b e1 = (b', e) ∧ SRel s a' b' := by
   intro a' e h
   obtain ⟨hr, hc, hrecs⟩ := hrel
   simp only [skipRest] at h ⊢
@@ -383,7 +392,7 @@ theorem skipRest_sim (s : Bytes) (ctx : Ctx) (e1 : Option Err) (a b : St) (hrel 
   by_cases hpos : (ctx.len + 65536 - consumed16 ctx a.r) % 65536 > 0
   · rw [if_pos hpos] at h; rw [if_pos hpos]
     split at h
-    · left; simp only [Prod.mk.injEq] at h; rw [← h.2]; exact fatal_short
+    · left; simp only [Prod.mk.injEq] at h; rw [← h.2]; exact fatalI_short
     · rename_i b0 r' hrd
       obtain ⟨f', hf', hr'⟩ := readN_ext hr hrd
       rw [hf']
@@ -397,18 +406,18 @@ theorem skipRest_sim (s : Bytes) (ctx : Ctx) (e1 : Option Err) (a b : St) (hrel 
     refine ⟨_, ⟨rfl, h.2⟩, ?_⟩
     rw [← h.1]; exact ⟨hr, hc, hrecs⟩
 
-theorem skipRest_fatal (ctx : Ctx) (e1 : Option Err) (a : St) (hf : Fatal e1) :
-    ∀ a' e, skipRest ctx a e1 = (a', e) → Fatal e := by
+theorem skipRest_fatal (ctx : Ctx) (e1 : Option Err) (a : St) (hf : FatalI e1) :
+    ∀ a' e, skipRest ctx a e1 = (a', e) → FatalI e := by
   intro a' e h
   simp only [skipRest] at h
   split at h
   · split at h
-    · simp only [Prod.mk.injEq] at h; rw [← h.2]; exact fatal_short
+    · simp only [Prod.mk.injEq] at h; rw [← h.2]; exact fatalI_short
     · simp only [Prod.mk.injEq] at h; rw [← h.2]; exact hf
   · simp only [Prod.mk.injEq] at h; rw [← h.2]; exact hf
 
 theorem skipRest_starved (ctx : Ctx) (a : St) (hs : Starved ctx a.r) :
-    ∀ a' e, skipRest ctx a none = (a', e) → Fatal e := by
+    ∀ a' e, skipRest ctx a none = (a', e) → FatalI e := by
   intro a' e h
   obtain ⟨hlen, hgt⟩ := hs
   unfold left16 at hgt
@@ -421,12 +430,12 @@ theorem skipRest_starved (ctx : Ctx) (a : St) (hs : Starved ctx a.r) :
     omega
   rw [this] at h
   simp only [Prod.mk.injEq] at h
-  rw [← h.2]; exact fatal_short
+  rw [← h.2]; exact fatalI_short
 
 theorem setBody_sim (s : Bytes) (addr : Bytes) (sid len start fuelT fuelF : Nat) (a b : St)
     (hle : fuelT ≤ fuelF) (hrel : SRel s a b) :
     ∀ a' e, setBody addr sid len start fuelT a = (a', e) →
-      Fatal e ∨ ∃ b', setBody addr sid len start fuelF b = (b', e) ∧ SRel s a' b' := by
+      FatalI e ∨ ∃ b', setBody addr sid len start fuelF b = (b', e) ∧ SRel s a' b' := by
   intro a' e h
   have hc := hrel.2.1
   simp only [setBody] at h ⊢
@@ -446,12 +455,12 @@ theorem setBody_sim (s : Bytes) (addr : Bytes) (sid len start fuelT fuelF : Nat)
       with hs | hfu | ⟨stF1, hF1, hrel1⟩ | ⟨hnone, hd, hstarve⟩
     · left; subst hs
       cases d1 with
-      | true => simp only [if_true, Prod.mk.injEq] at h; rw [← h.2]; exact fatal_short
-      | false => simp only [Bool.false_eq_true, if_false] at h; exact skipRest_fatal _ _ st1 fatal_short a' e h
+      | true => simp only [if_true, Prod.mk.injEq] at h; rw [← h.2]; exact fatalI_short
+      | false => simp only [Bool.false_eq_true, if_false] at h; exact skipRest_fatal _ _ st1 fatalI_short a' e h
     · left; subst hfu
       cases d1 with
-      | true => simp only [if_true, Prod.mk.injEq] at h; rw [← h.2]; exact fatal_fuel
-      | false => simp only [Bool.false_eq_true, if_false] at h; exact skipRest_fatal _ _ st1 fatal_fuel a' e h
+      | true => simp only [if_true, Prod.mk.injEq] at h; rw [← h.2]; exact fatalI_fuel
+      | false => simp only [Bool.false_eq_true, if_false] at h; exact skipRest_fatal _ _ st1 fatalI_fuel a' e h
     · rw [hF1]; simp only
       cases d1 with
       | true =>
@@ -467,23 +476,23 @@ theorem setBody_sim (s : Bytes) (addr : Bytes) (sid len start fuelT fuelF : Nat)
 theorem decodeSet_sim (s : Bytes) (addr : Bytes) (fuelT fuelF : Nat) (stT stF : St)
     (hle : fuelT ≤ fuelF) (hrel : SRel s stT stF) :
     ∀ stT' eT, decodeSet addr fuelT stT = (stT', eT) →
-      Fatal eT ∨ ∃ stF', decodeSet addr fuelF stF = (stF', eT) ∧ SRel s stT' stF' := by
+      FatalI eT ∨ ∃ stF', decodeSet addr fuelF stF = (stF', eT) ∧ SRel s stT' stF' := by
   intro stT' eT h
   obtain ⟨hr, hc, hrecs⟩ := hrel
   simp only [decodeSet] at h ⊢
   split at h
-  · left; simp only [Prod.mk.injEq] at h; rw [← h.2]; exact fatal_short
+  · left; simp only [Prod.mk.injEq] at h; rw [← h.2]; exact fatalI_short
   · rename_i sid r1 h1
     obtain ⟨f1, hf1, hr1⟩ := rU16_ext hr h1
     rw [hf1]
     split at h
-    · left; simp only [Prod.mk.injEq] at h; rw [← h.2]; exact fatal_short
+    · left; simp only [Prod.mk.injEq] at h; rw [← h.2]; exact fatalI_short
     · rename_i len r2 h2
       obtain ⟨f2, hf2, hr2⟩ := rU16_ext hr1 h2
       rw [hf2]
       simp only
       by_cases hl : len < 4
-      · rw [if_pos hl] at h; left; simp only [Prod.mk.injEq] at h; rw [← h.2]; exact fatal_badSetLen
+      · rw [if_pos hl] at h; left; simp only [Prod.mk.injEq] at h; rw [← h.2]; exact fatalI_badSetLen
       · rw [if_neg hl] at h
         rw [if_neg hl, ← hr.1]
         exact setBody_sim s addr sid len stT.r.cnt fuelT fuelF { stT with r := r2 } { stF with r := f2 } hle
@@ -604,7 +613,7 @@ theorem outer_sim (s : Bytes) (addr : Bytes) : ∀ (fuelT fuelF : Nat) (stT stF 
           | none => simp only; exact ih m _ _ _ _ hle' hrel'
           | some x =>
             simp only
-            by_cases hn : x.nonfatal = true
+            by_cases hn : nonfatalErr x = true
             · rw [if_pos hn, if_pos hn]; exact ih m _ _ _ _ hle' hrel'
             · rw [if_neg hn]; simp [outRecs]
       · have : outer addr (n + 1) stT eT = (stT, none, eT) := by simp only [outer]; rw [if_neg hT]
